@@ -752,7 +752,10 @@ def checkOk (x : Outcome) (p : Result → Bool) : Bool :=
   | .ok r => p r
   | _ => false
 
-theorem checkOk_elim {x : Outcome} {p : Result → Bool} (h : checkOk x p = true) : ∃ r, x = .ok r ∧ p r = true := by
+end Ex
+open Ex
+
+theorem ex_checkOk_elim {x : Outcome} {p : Result → Bool} (h : checkOk x p = true) : ∃ r, x = .ok r ∧ p r = true := by
   cases x <;> simp [checkOk] at h
   exact ⟨_, rfl, h⟩
 
@@ -785,7 +788,7 @@ example : (match analyseX86 model (optsL [45]) (joinLines [l1, l3]) with | .badL
   decide +kernel
 
 /-- the model has no entry for `foo`, whatever the operands, with or without the fall-back spelling -/
-theorem no_foo : ∀ ops, Match.lookupWithFallbacks model.mm.isa model.mm.db foo ops = none := by
+theorem ex_no_foo : ∀ ops, Match.lookupWithFallbacks model.mm.isa model.mm.db foo ops = none := by
   intro ops
   have h1 : Match.getInstruction .x86 mm.db foo ops = none := by
     simp [Match.getInstruction, mm, Match.entryMatches, foo, upper, upperC]
@@ -805,11 +808,11 @@ example : checkOk (analyseX86 model opts (joinLines ([l1, ln] ++ lk :: [l3]))) (
   have h := e2e_unknown_isolated model opts [l1, ln] [l3] lk lu
     (by decide +kernel) (by decide +kernel) (by decide +kernel) (by decide +kernel)
     { mnemonic := some foo, operands := [.reg [114, 98, 120], .reg [114, 99, 120]] } foo (by decide +kernel) rfl
-    no_foo r1 r2 h1 h2
+    ex_no_foo r1 r2 h1 h2
   exact ⟨fun row hr hl => let x := h.2.1 row hr hl; ⟨x.2.1, x.2.2.1, x.2.2.2.2⟩, h.2.2.2⟩
 
 /-- the comment line is a noise line -/
-theorem ln_noise : IsNoise ln :=
+theorem ex_ln_noise : IsNoise ln :=
   ⟨by decide +kernel, { comment := some [110, 111, 116, 101] }, by decide +kernel, rfl⟩
 
 /-- `e2e_noise_transparent_text`, whole file: `[l1, lu, l3]` and `[l1, # note, lu, l3]` are both analysed
@@ -825,16 +828,16 @@ example : checkOk (analyseX86 model opts (joinLines ([l1] ++ [lu, l3]))) (fun r 
   have c2 : checkOk (analyseX86 model opts (joinLines ([l1] ++ ln :: [lu, l3]))) (fun r => r.kernel.length == r.parsed.length) = true := by
     decide +kernel
   refine ⟨c1, c2, fun r1 r2 h1 h2 => ?_⟩
-  obtain ⟨r1', e1, q1⟩ := checkOk_elim c1
-  obtain ⟨r2', e2, q2⟩ := checkOk_elim c2
+  obtain ⟨r1', e1, q1⟩ := ex_checkOk_elim c1
+  obtain ⟨r2', e2, q2⟩ := ex_checkOk_elim c2
   rw [h1] at e1; cases e1
   rw [h2] at e2; cases e2
   have k1 := ((e2e_rows_local model opts _ r1 h1).2.1).eq_of_length (by simpa using q1)
   have k2 := ((e2e_rows_local model opts _ r2 h2).2.1).eq_of_length (by simpa using q2)
   exact e2e_noise_transparent_whole_file model opts [l1] [lu, l3] ln (by simp)
-    (by decide +kernel) ln_noise r1 r2 h1 h2 k1 k2
+    (by decide +kernel) ex_ln_noise r1 r2 h1 h2 k1 k2
 
-theorem shift_ok : ∀ x : Nat, ([1, 3, 4] : List Int).contains ((shiftAt 1 x : Nat) : Int) =
+theorem ex_shift_ok : ∀ x : Nat, ([1, 3, 4] : List Int).contains ((shiftAt 1 x : Nat) : Int) =
     ([1, 2, 3] : List Int).contains (x : Int) := by
   intro x
   rcases x with _ | _ | _ | _ | x
@@ -864,14 +867,14 @@ example : checkOk (analyseX86 model (optsL [49, 44, 50, 45, 51]) (joinLines ([l1
   exact e2e_noise_transparent_lines model (optsL [49, 44, 50, 45, 51]) (optsL [49, 44, 51, 45, 52])
     [49, 44, 50, 45, 51] [49, 44, 51, 45, 52] [1, 2, 3] [1, 3, 4] rfl rfl
     (by decide +kernel) (by decide +kernel) rfl rfl [l1] [lu, l3] ln (by simp)
-    (by decide +kernel) ln_noise shift_ok r1 r2 h1 h2
+    (by decide +kernel) ex_ln_noise ex_shift_ok r1 r2 h1 h2
 
-theorem names_ok : ∀ n ∈ model.mm.ports, Report.NameOk n ∧ Report.NoNL n := by
+theorem ex_names_ok : ∀ n ∈ model.mm.ports, Report.NameOk n ∧ Report.NoNL n := by
   intro n hn
   have : n = [48] ∨ n = [49] := by simpa [model, mm] using hn
   rcases this with rfl | rfl <;> exact ⟨⟨by decide, by decide⟩, by unfold Report.NoNL; decide⟩
 
-theorem reprEx_ok (q : Rat) : Report.TokOk (reprEx q) ∧ Report.WordOk (reprEx q) ∧ Report.NoNL (reprEx q) := by
+theorem ex_reprEx_ok (q : Rat) : Report.TokOk (reprEx q) ∧ Report.WordOk (reprEx q) ∧ Report.NoNL (reprEx q) := by
   have hd : ∀ c ∈ reprEx q, (48 ≤ c ∧ c ≤ 57) ∨ c = 46 := by
     intro c hc
     simp only [reprEx, List.mem_append, List.mem_singleton] at hc
@@ -893,7 +896,7 @@ example : checkOk (analyseX86 model opts (joinLines [l1, ln, lu, l3])) (fun _ =>
     ∀ r, analyseX86 model opts (joinLines [l1, ln, lu, l3]) = .ok r →
       Spec.Report.parseTable (Report.combinedView r.report) = some (Report.view r.report) := by
   refine ⟨by decide +kernel, fun r h => ?_⟩
-  exact (e2e_report_roundtrip model opts _ r h (by decide) names_ok reprEx_ok).1
+  exact (e2e_report_roundtrip model opts _ r h (by decide) ex_names_ok ex_reprEx_ok).1
 
 /-- `e2e_per_line_local_files`: line 4 of the long file and line 3 of the short one have the same text, hence the
     same per-instruction data, under different options -/
@@ -901,7 +904,5 @@ example : ∀ r1 r2, analyseX86 model opts (joinLines [l1, ln, lu, l3]) = .ok r1
     analyseX86 model (optsL [49, 44, 50, 45, 51]) (joinLines [l1, lu, l3]) = .ok r2 →
     ∀ p1 ∈ r1.parsed, ∀ p2 ∈ r2.parsed, p1.text = p2.text → eraseNum p1 = eraseNum p2 :=
   fun r1 r2 h1 h2 p1 hp1 p2 hp2 ht => e2e_per_line_local_files model _ _ _ _ r1 r2 h1 h2 p1 p2 hp1 hp2 ht
-
-end Ex
 
 end OsacaVerif.Props.EndToEnd
